@@ -652,4 +652,4 @@ var eqUniverseTexts = []string{`null`, `1`, `"a"`, `[]`, `{}`, `[null]`, `[1]`, 
 	`{"a":null}`, `{"b":null}`, `{"a":1}`, `{"b":1}`, `{"a":"a"}`, `{"a":[]}`, `{"a":{}}`, `{"a":[null]}`, `{"a":{"b":null}}`, `{"a":{"a":null}}`, `{"a":{"b":1}}`,
 	`{"a":null,"b":null}`, `{"a":null,"c":null}`, `{"b":null,"c":null}`, `{"a":1,"b":null}`, `{"a":null,"b":1}`, `{"a":1,"b":1}`, `{"a":1,"c":1}`, `{"a":1,"b":2}`, `{"a":2,"b":1}`,
 	`{"a":[1,2]}`, `{"a":[2,1]}`, `{"a":{"b":[{"c":null}]}}`, `{"a":{"b":[{"d":null}]}}`, `{"a":{"b":[{"c":null},null]}}`, `[{"a":null},{"b":null}]`, `[{"b":null},{"a":null}]`,
-	`0`, `-0.0`, `1.0`, `"1"`, `true`, `false`, `""`, `"null"`, `[true]`, `[false]`, `{"":null}`, `{"":""}`}
+	`0`, `-0.0`, `1.0`, `"1"`, `[0]`, `[-0.0]`, `{"a":0}`, `{"a":-0.0}`, `[1.0, [0.0]]`, `[1, [-0.0]]`, `{"a":[1e0]}`, `{"a":[1]}`, `true`, `false`, `""`, `"null"`, `[true]`, `[false]`, `{"":null}`, `{"":""}`}
